@@ -100,7 +100,14 @@ class Env:
 class Session:
     """One execution on a fresh virtual loop."""
 
+    _count = 0
+
     def __init__(self):
+        # Throw-away loops are cyclic garbage; the automatic full collections are too rare for hundreds of thousands of
+        # them (memory grew to several GB per worker), so collect explicitly every few thousand sessions.
+        Session._count += 1
+        if Session._count % 4000 == 0:
+            gc.collect()
         self.loop = VLoop()
         self.env = Env(self.loop)
         self._entered = False
